@@ -16,6 +16,7 @@ Definition run_case (comp : N) (inp : list N) : list N :=
   | 11 => run_compact inp
   | 6 => run_nodeseq inp
   | 14 => run_candidate inp
+  | 1401 => run_candidate_f inp
   | 8 => run_leaderseq inp
   | 1 => run_cluster inp
   | 101 => run_clusterlog inp
@@ -32,5 +33,6 @@ Definition run_case (comp : N) (inp : list N) : list N :=
   | 13 => run_lease inp
   | 1301 => run_validate_timing inp
   | 1302 => [min_check_interval]
+  | 1303 => run_lease_floor inp
   | _ => []
   end.
